@@ -4,7 +4,7 @@ package generator
 
 // Contracts for package generator (comment-only; checked by /verif/engine).
 
-//@ pred GenOK(g *generator) bool = g != nil && g.lookup != nil && g.extend != nil && g.conf != nil
+//@ pred GenOK(g *generator) bool = g != nil && method.IndexWF(g.lookup) && method.IndexWF(g.extend) && g.conf != nil && g.namer != nil
 
 //@ func typeMismatch
 //@   props C03 C11
